@@ -660,7 +660,7 @@ impl Prop for C16 {
         "C16"
     }
     fn rule(&self) -> &'static str {
-        "generated units (1-2; versions 2-5 x 32/64-bit x address size 4/8 x byte order; DW_AT_low_pc absent / zero / non-zero) each with 1-4 range lists and 0-3 location lists, some equal to an earlier list; lists are either valid by construction or drawn from boundary values (0, 1, all-ones, all-ones-1/-2, 2^32, u64::MAX, begin = end, begin + length wrapping, offsets without a base, address pairs with a base, default locations before v5); location expressions include entry references (typed constants, calls, cross-unit call_ref). Oracle: the request: attr_ranges/attr_locations on the read-back unit must yield the model resolution (harness/src/c08.rs resolve, relative to the unit base) of the requested list with the requested expressions; equal lists get equal ids, get(id) returns the list, and the emitted section contains exactly one copy per distinct list (independent section walker); a request that is not representable unambiguously in the chosen encoding (independent verdict function over the entry shapes) must be refused. separate mode (symbolic unit base): DW_AT_low_pc and all list addresses are Address::Symbol, written through a relocation-recording writer whose relocations are then applied; offset pairs must be accepted exactly when the unit has a (symbolic) base and address pairs exactly when it has none (pre-v5), and the lists must read back as requested. Non-trivial = a base-address entry followed by an offset pair in a unit with >= 2 lists, or a negative case, or a symbolic base in a pre-v5 unit; distinct by choice string."
+        "generated units (1-2; versions 2-5 x 32/64-bit x address size 4/8 x byte order; DW_AT_low_pc absent / zero / non-zero) each with 1-4 range lists and 0-3 location lists, some equal to an earlier list; lists are either valid by construction or drawn from boundary values (0, 1, all-ones, all-ones-1/-2, 2^32, u64::MAX, begin = end, begin + length wrapping, offsets without a base, address pairs with a base, default locations before v5); location expressions include entry references (typed constants, calls, cross-unit call_ref). Oracle: the request: attr_ranges/attr_locations on the read-back unit must yield the model resolution (harness/src/c08.rs resolve, relative to the unit base) of the requested list with the requested expressions; equal lists get equal ids, get(id) returns the list, and the emitted section contains exactly one copy per distinct list (independent section walker); a request that is not representable unambiguously in the chosen encoding (independent verdict function over the entry shapes) must be refused. separate mode (symbolic unit base): DW_AT_low_pc and all list addresses are Address::Symbol, written through a relocation-recording writer whose relocations are then applied; offset pairs must be accepted exactly when the unit has a (symbolic) base and address pairs exactly when it has none (pre-v5), and the lists must read back as requested. Non-trivial = a base-address entry followed by an offset pair in a unit with >= 2 lists, or a negative case, or a symbolic base in a pre-v5 unit; distinct by choice string. Later additions: units with two-byte addresses; empty expressions in bounded location list entries."
     }
     fn assumptions(&self) -> Vec<&'static str> {
         vec![
